@@ -393,6 +393,7 @@ Ev(e, f, st) ==
     [] e.t = "arr"  -> LET r == EvElems(e.es, 1, f, st) IN IF r.k # "val" THEN r ELSE R("val", ArrV(r.v), r.st)
     [] e.t = "obj"  -> LET r == EvPairs(e.ps, 1, f, st) IN
                        IF r.k # "val" THEN r ELSE R("val", ObjV(SortPairs(r.st.names, r.v, 1)), r.st)
+    [] e.t = "nilnew" -> R("val", NilV, st)          \* Nil.new: another nil object, nil in every respect
     [] e.t = "view" -> LET r == EvList(<<e.base, e.els>>, 1, f, st) IN
                        IF r.k # "val" THEN r ELSE IF r.v[2].t # "arr" THEN Unsupported(r.st) ELSE R("val", [t |-> "view", es |-> r.v[2].es], r.st)
     [] e.t = "range" -> LET r == EvList(<<e.a, e.b, e.c>>, 1, f, st) IN
